@@ -52,10 +52,11 @@ func c19DependsOnInstant(v ssa.Value, seen map[ssa.Value]bool) bool {
 		return false
 	case *ssa.UnOp:
 		if x.Op == token.MUL {
-			// load of a local cell: follow the stores into it
-			if a, ok := x.X.(*ssa.Alloc); ok {
-				for _, r := range core.Referrers(a) {
-					if st, ok := r.(*ssa.Store); ok && st.Addr == a && c19DependsOnInstant(st.Val, seen) {
+			// load of a local cell, or of a field / element of one (a small struct built from the instant and handed
+			// on by value): follow the stores into the storage that the load reads
+			if a, path, ok := h1AddrPath(x.X); ok {
+				for _, st := range h1AllocStores(a) {
+					if _, sp, ok := h1AddrPath(st.Addr); ok && h1PathsOverlap(path, sp) && c19DependsOnInstant(st.Val, seen) {
 						return true
 					}
 				}
@@ -90,64 +91,20 @@ func c19ValHasTime(t types.Type) bool {
 	return false
 }
 
-// c19EmptyInputEdge: block b is dominated by the true successor of `p == ""` / `len(p) == 0` (or the false successor
-// of the negations) for a string parameter p of the function.
+// c19EmptyInputEdge: block b is dominated by the empty successor of an emptiness test of a string parameter p of the
+// function: `p == ""` / `len(p) == 0`, their negations, or a repository predicate proven to decide exactly that
+// (h1EmptyTests).
 func c19EmptyInputEdge(b *ssa.BasicBlock) bool {
 	f := b.Parent()
-	for _, blk := range f.Blocks {
-		if len(blk.Instrs) == 0 {
-			continue
-		}
-		ifi, ok := blk.Instrs[len(blk.Instrs)-1].(*ssa.If)
-		if !ok {
-			continue
-		}
-		bo, ok := ifi.Cond.(*ssa.BinOp)
-		if !ok {
-			continue
-		}
-		isParamStr := func(v ssa.Value) bool {
-			p, ok := v.(*ssa.Parameter)
-			if !ok {
-				return false
+	for _, p := range f.Params {
+		for _, t := range h1EmptyTests(p) {
+			edge := t.empty
+			if edge == nil || len(edge.Preds) != 1 {
+				continue
 			}
-			bt, ok := p.Type().Underlying().(*types.Basic)
-			return ok && bt.Info()&types.IsString != 0
-		}
-		isLenOfParam := func(v ssa.Value) bool {
-			cl, ok := v.(*ssa.Call)
-			if !ok {
-				return false
+			if edge == b || edge.Dominates(b) {
+				return true
 			}
-			bi, ok := cl.Call.Value.(*ssa.Builtin)
-			return ok && bi.Name() == "len" && len(cl.Call.Args) == 1 && isParamStr(cl.Call.Args[0])
-		}
-		isEmptyConst := func(v ssa.Value) bool {
-			k, ok := v.(*ssa.Const)
-			return ok && k.Value != nil && (k.Value.ExactString() == `""` || k.Value.ExactString() == "0")
-		}
-		emptyCmp := (isParamStr(bo.X) && isEmptyConst(bo.Y)) || (isParamStr(bo.Y) && isEmptyConst(bo.X)) ||
-			(isLenOfParam(bo.X) && isEmptyConst(bo.Y)) || (isLenOfParam(bo.Y) && isEmptyConst(bo.X))
-		if !emptyCmp {
-			continue
-		}
-		var edge *ssa.BasicBlock
-		switch bo.Op {
-		case token.EQL:
-			edge = blk.Succs[0]
-		case token.NEQ:
-			edge = blk.Succs[1]
-		case token.GTR: // len(p) > 0 : false edge
-			if isLenOfParam(bo.X) {
-				edge = blk.Succs[1]
-			}
-		case token.LSS: // len(p) < 1 handled as constant 1? not recognised
-		}
-		if edge == nil || len(edge.Preds) != 1 {
-			continue
-		}
-		if edge == b || edge.Dominates(b) {
-			return true
 		}
 	}
 	return false
